@@ -9,7 +9,7 @@ import (
 
 // C16 — options: case-insensitive names, last wins, call overrides default, nil-safe.
 
-var hSpellX = []string{"ab", "AB", "aB"}
+var hSpellX = []string{"ab", "aB"}
 var hSpellY = []string{"cd", "Cd"}
 
 // HarnessC16 — a target with four parameters of four different types:
@@ -23,7 +23,7 @@ var hSpellY = []string{"cd", "Cd"}
 // construction defaults, the next ones the options of a first call, the rest the
 // options of a second call ON THE SAME Func: for each call the injected payloads
 // must be those of the last occurrence of the key over defaults ++ that call's options.
-func HarnessC16(m, withNil int) {
+func HarnessC16(m, withNil, withBase int) {
 	hOrderSites(0)
 	fieldSp := []string{"ab", "Ab"}[vnChoice("field", 2)]
 	st := reflect.StructOf([]reflect.StructField{
@@ -68,13 +68,19 @@ func HarnessC16(m, withNil int) {
 			desc += fmt.Sprintf("Named(%s) ", sp)
 		case oY:
 			sp := hSpellY[vnChoice("spy", len(hSpellY), i)]
-			opts = append(opts, NamedSubtype(sp, hP2{pay[i]}, "s"))
-			key[i] = 1
-			desc += fmt.Sprintf("NamedSubtype(%s,s) ", sp)
+			st := []string{"s", "other"}[vnChoice("sty", 2, i)]
+			opts = append(opts, NamedSubtype(sp, hP2{pay[i]}, st))
+			if st == "s" {
+				key[i] = 1 // a value under another subtype of the same name sets a different key
+			}
+			desc += fmt.Sprintf("NamedSubtype(%s,%s) ", sp, st)
 		case oZ:
-			opts = append(opts, TypedSubtype(hP1{pay[i]}, "s"))
-			key[i] = 2
-			desc += "TypedSubtype(P1,s) "
+			st := []string{"s", "other"}[vnChoice("stz", 2, i)]
+			opts = append(opts, TypedSubtype(hP1{pay[i]}, st))
+			if st == "s" {
+				key[i] = 2
+			}
+			desc += fmt.Sprintf("TypedSubtype(P1,%s) ", st)
 		case oNilVal:
 			switch hPick("nilkind", 4, i) {
 			case 0:
@@ -93,12 +99,24 @@ func HarnessC16(m, withNil int) {
 			desc += "nil-Arg "
 		}
 	}
+	// withBase: three fixed defaults (one per key) precede the symbolic options, so that
+	// every call is satisfiable and short option lists can exercise override-then-default
+	base := 0
+	var basePay [3]int
+	if withBase == 1 {
+		base = 3
+		for k := 0; k < 3; k++ {
+			basePay[k] = vnPayload("base", k)
+		}
+		opts = append([]Arg{Named("ab", hP0{basePay[0]}), NamedSubtype("cd", hP2{basePay[1]}, "s"), TypedSubtype(hP1{basePay[2]}, "s")}, opts...)
+		desc = "[base defaults ab, cd/s, P1/s] " + desc
+	}
 	d := hPick("defaults", m+1)
 	e := d + hPick("firstcall", m-d+1)
 	vnNote(fmt.Sprintf("field spelling %q; options: %s; defaults [0,%d) first call [%d,%d) second call [%d,%d)", fieldSp, desc, d, d, e, e, m))
 	var f *Func
 	var err error
-	if hGuardPlain(func() { f, err = NewFunc(fn.Interface(), opts[:d]...) }) {
+	if hGuardPlain(func() { f, err = NewFunc(fn.Interface(), opts[:base+d]...) }) {
 		vnAssert(false, "C16.NewFunc-does-not-panic")
 		return
 	}
@@ -120,13 +138,16 @@ func HarnessC16(m, withNil int) {
 		}
 		ran = 0
 		var r Result
-		if hGuardPlain(func() { r = f.Call(opts[lo:hi]...) }) {
+		if hGuardPlain(func() { r = f.Call(opts[base+lo : base+hi]...) }) {
 			vnAssert(false, "C16.call-does-not-panic")
 			return
 		}
 		vnCover("C16.call-returned")
 		// effective option list of this call: defaults ++ this call's options
 		last := [3]int{-1, -1, -1}
+		if base > 0 {
+			last = [3]int{-2, -2, -2} // the base default of the key
+		}
 		nilArg := false
 		for i := 0; i < m; i++ {
 			if i < d || (i >= lo && i < hi) {
@@ -144,18 +165,24 @@ func HarnessC16(m, withNil int) {
 			vnCover("C16.nil-option-checked")
 			continue
 		}
-		if last[0] < 0 || last[1] < 0 || last[2] < 0 {
+		if last[0] == -1 || last[1] == -1 || last[2] == -1 {
 			vnAssert(r.Err() != nil, "C16.missing-key-fails")
 			continue
+		}
+		want := func(k int) int {
+			if last[k] == -2 {
+				return basePay[k]
+			}
+			return pay[last[k]]
 		}
 		vnAssert(r.Err() == nil, "C16.call-succeeds")
 		if r.Err() != nil {
 			continue
 		}
 		vnAssert(ran == 1, "C16.target-ran-once")
-		vnAssert(got[0] == pay[last[0]], "C16.named-last-occurrence-wins-case-insensitively")
-		vnAssert(got[1] == pay[last[1]], "C16.named-subtype-last-occurrence-wins-case-insensitively")
-		vnAssert(got[2] == pay[last[2]], "C16.typed-subtype-last-occurrence-wins")
+		vnAssert(got[0] == want(0), "C16.named-last-occurrence-wins-case-insensitively")
+		vnAssert(got[1] == want(1), "C16.named-subtype-last-occurrence-wins-case-insensitively")
+		vnAssert(got[2] == want(2), "C16.typed-subtype-last-occurrence-wins")
 		for k := 0; k < 3; k++ {
 			if last[k] < d {
 				vnCover("C16.default-applies")
